@@ -30,7 +30,7 @@ const (
 	cD        // present, 7 bytes, denied to peer p1 by the request filter
 	cZ        // present, EMPTY block (only in "zero" configurations)
 	cI        // identity-hash CID (ignored by the engine)
-	cO        // oversize CID (sha2-512, 68 bytes > WithMaxCidSize(40); ignored by the engine)
+	cO        // oversize CID (sha2-512, 68 bytes > WithMaxCidSize(36); ignored by the engine)
 	nCids
 )
 
@@ -260,7 +260,7 @@ func newWorld(cfg config) *world {
 		decision.WithTargetMessageSize(cfg.T),
 		decision.WithMaxQueuedWantlistEntriesPerPeer(uint(cfg.L)),
 		decision.WithWantHaveReplaceSize(cfg.R),
-		decision.WithMaxCidSize(40),
+		decision.WithMaxCidSize(36), // exactly the length of the pool's sha2-256 CIDv1s: the boundary value
 		decision.WithPeerBlockRequestFilter(func(p peer.ID, c cid.Cid) bool {
 			return permitted(w.role(p), cidIdx(c))
 		}),
@@ -304,7 +304,9 @@ func (w *world) pname(p peer.ID) string {
 }
 
 // serves: the block is in the store and the filter lets this peer have it.
-func (w *world) serves(role, c int) bool { return c >= 0 && c < nCids && w.store[c] && permitted(role, c) }
+func (w *world) serves(role, c int) bool {
+	return c >= 0 && c < nCids && w.store[c] && permitted(role, c)
+}
 
 type lent struct {
 	prio int32
